@@ -25,15 +25,15 @@ import (
 // (export/z/bloom.go). Every violation is re-executed from a fresh filter before it is reported.
 //
 // Oracle (nothing beyond the property statement):
-//   * every hash in S is reported by Has (until Clear);
-//   * AddIfNotHas(h) returns true exactly when Has(h) was false immediately before, and h joins S;
-//   * after Clear the bitset is all zero and Has is false for all 16 hashes (only if the filter
+//   - every hash in S is reported by Has (until Clear);
+//   - AddIfNotHas(h) returns true exactly when Has(h) was false immediately before, and h joins S;
+//   - after Clear the bitset is all zero and Has is false for all 16 hashes (only if the filter
 //     probes at least one location; with zero locations Has is vacuously true), S becomes empty;
-//   * the unmarshalled filter answers Has like the original for all 16 hashes; a difference in
+//   - the unmarshalled filter answers Has like the original for all 16 hashes; a difference in
 //     bitset / parameters is reported only together with a concrete witness hash for which
 //     the two filters answer Has differently (for a bitset difference at bit p the witness is the
 //     hash whose high part is p and whose low part is 0);
-//   * no call panics.
+//   - no call panics.
 func init() { register("C19", "model_checking", c19) }
 
 const (
@@ -370,7 +370,7 @@ type c19State struct {
 	hist []c19Ev
 }
 
-func c19Explore(r *ev.Run, cfg *c19Config, depth int, deadline time.Time, obsSet map[string]int64) {
+func c19Explore(r *ev.Run, cfg *c19Config, depth int, deadline time.Time, obsSet map[string]int64, total *int64, stride int64) {
 	fresh, p := c19NewFilter(cfg.Entries, cfg.Second)
 	if p != nil || fresh == nil {
 		r.Violation("C19/constructor-panics", fmt.Sprintf("NewBloomFilter(%v,%v) panicked: %v", cfg.Entries, cfg.Second, p), c19Case{Entries: cfg.Entries, Second: cfg.Second, Events: []c19Event{}})
@@ -383,12 +383,6 @@ func c19Explore(r *ev.Run, cfg *c19Config, depth int, deadline time.Time, obsSet
 	cfg.Depth = depth
 	if uint64(len(c19Bits(fresh)))*64 != cfg.SizeBits {
 		ev.Fatalf("C19: unexpected filter layout: %d words for size mask %#x", len(c19Bits(fresh)), pr[1])
-	}
-	// initial state: a fresh filter must be empty like a cleared one
-	if has, _ := c19HasAll(fresh, &hs); has != 0 && pr[2] > 0 {
-		r.Violation("C19/fresh-filter-not-empty", fmt.Sprintf("NewBloomFilter(%v,%v): Has true for %s before any Add", cfg.Entries, cfg.Second, c19SetString(has, &hs)), c19Case{Entries: cfg.Entries, Second: cfg.Second, Events: []c19Event{}})
-		cfg.Violations++
-		return
 	}
 	var events []c19Ev
 	for i := 0; i < 16; i++ {
@@ -420,6 +414,10 @@ func c19Explore(r *ev.Run, cfg *c19Config, depth int, deadline time.Time, obsSet
 				cur := scratch
 				S2, v, obs := c19Step(&cur, &hs, st.S, e)
 				cfg.Trans++
+				*total++
+				if *total%stride == 0 {
+					r.Sample(c19MakeCase(cfg.Entries, cfg.Second, &hs, append(append([]c19Ev(nil), st.hist...), e)))
+				}
 				if e.op == c19JSON {
 					cfg.RoundTrips++
 				}
@@ -449,9 +447,6 @@ func c19Explore(r *ev.Run, cfg *c19Config, depth int, deadline time.Time, obsSet
 				if d+1 < depth {
 					hist := append(append(make([]c19Ev, 0, len(st.hist)+1), st.hist...), e)
 					next = append(next, c19State{z.VerifBloomClone(cur), S2, hist})
-				} else if cfg.States%1500 == 0 {
-					hist := append(append([]c19Ev(nil), st.hist...), e)
-					r.Sample(c19MakeCase(cfg.Entries, cfg.Second, &hs, hist))
 				}
 			}
 		}
@@ -489,11 +484,13 @@ func c19(tier string, r *ev.Run, replay string) {
 	entries := []float64{1, 100, 512, 513, 1000, 5000}
 	locs := []float64{1, 2, 3, 7}
 	rates := []float64{0.5, 0.1, 0.01, 0.0001}
-	depth := 4
+	depth := 5
 	budget := 40 * time.Second
+	stride := int64(499979)
 	if tier == "thorough" {
-		depth = 5
+		depth = 7
 		budget = 9 * time.Minute
+		stride = 4999963
 	}
 	deadline := time.Now().Add(budget)
 	var cfgs []*c19Config
@@ -508,10 +505,10 @@ func c19(tier string, r *ev.Run, replay string) {
 		}
 	}
 	obsSet := map[string]int64{}
-	var states, trans, rts int64
+	var states, trans, rts, total int64
 	exhaustive := true
 	for _, c := range cfgs {
-		c19Explore(r, c, depth, deadline, obsSet)
+		c19Explore(r, c, depth, deadline, obsSet, &total, stride)
 		states += c.States
 		trans += c.Trans
 		rts += c.RoundTrips
